@@ -2,7 +2,8 @@
 import vlib
 from pipes_common import PipeSpec, SampleStreamSpec
 
-SPECS = {"stream-close": (PipeSpec("stream", False), "harness", "runner"), "stream-close-faults": (PipeSpec("stream", True), "harness", "runner"), "samplestream": (SampleStreamSpec(), "harness", "runner")}
+SPECS = {"stream-close": (PipeSpec("stream", False), "harness", "runner"), "stream-close-faults": (PipeSpec("stream", True), "harness", "runner"), "samplestream": (SampleStreamSpec(), "harness", "runner"),
+         "stream-close-panics": (PipeSpec("stream", True, panics=True), "harness", "runner")}
 
 PROP_FILES = ["C09"]
 
@@ -15,8 +16,10 @@ def run(ctx):
         return ctx.finish()
     vlib.seq_differential(ctx, PipeSpec("stream", faults=False), exe, proofs_ok, tag="stream-close", scale=0.6)
     vlib.seq_differential(ctx, PipeSpec("stream", faults=True), exe, proofs_ok, tag="stream-close-faults", scale=0.6)
+    # callbacks, reduction functions and sources that panic (the caller recovers): reducers still close what they own
+    vlib.seq_differential(ctx, PipeSpec("stream", faults=True, panics=True), exe, proofs_ok, tag="stream-close-panics", scale=0.6)
     vlib.seq_differential(ctx, SampleStreamSpec(), exe, proofs_ok, tag="samplestream")
-    vlib.merge_parts(ctx, "cases = random stream pipelines; the consumer stops after 0..len+3 Next calls and closes, or runs a reducer, with and without faults; "
+    vlib.merge_parts(ctx, "cases = random stream pipelines; the consumer stops after 0..len+3 Next calls and closes, or runs a reducer, with and without faults, with callbacks / reduction functions / sources that panic (recovered by the caller); "
                      "observed: the Next/Close event log of every instrumented source; distinct = hash of (pipeline, program); non-trivial = at least one combinator and one step")
     vlib.handle_broken_proof(ctx)
     ctx.finish()
